@@ -97,7 +97,7 @@ class NonceMonitor(Monitor):
         return (len(self.violations),)
 
 
-STEPS = ["small", "best", "retry", "frag", "burst40", "idle0.5", "idle3", "long0.3", "long1.2", "stream"]
+STEPS = ["small", "best", "retry", "frag", "burst40", "idle0.5", "idle3", "long0.3", "long1.2", "stream", "fastloop"]
 
 
 def do_step(w, dm, step):
@@ -125,6 +125,18 @@ def do_step(w, dm, step):
             app_send(w, dm, "c", MARK + b"x", "none")
             app_send(w, dm, "s", MARK + b"y", "none")
             w.tick()
+        w.fates = saved
+    elif step == "fastloop":
+        # the owners call update every millisecond (a busy loop) with data always queued: only the protocol's own
+        # send-rate cap keeps the datagram rate - and with it the time a sequence-number lap takes - above one second
+        saved = w.fates
+        w.fates = []
+        # the reverse path is silent meanwhile, so the ack field (part of the nonce) does not move either
+        w.start_blackout("s2c", 1300)
+        for i in range(1300):
+            if i % 4 == 0:
+                app_send(w, dm, "c", MARK + b"f", "none")
+            w.tick(dt=0.001)
         w.fates = saved
     elif step.startswith("idle"):
         w.run(int(float(step[4:]) / tick))
@@ -229,6 +241,8 @@ def params_list(tier):
         for p in progs:
             if "stream" in p and (start != "ring63" or p.count("stream") > 1 or (tier == "quick" and p[0] != "stream")):
                 continue
+            if "fastloop" in p and (start != "ring63" or p.count("fastloop") > 1 or (tier == "quick" and len(p) > 1 and p[0] != "fastloop") or "stream" in p):
+                continue
             cfgs = [("cs", 1, 1.0 / 64)]
             if start == "ring63":
                 cfgs.append(("cs", 1, 0.02))   # frame > send_interval: one datagram per frame, fastest wrap
@@ -275,7 +289,7 @@ def run(tier, seed):
                     2 if tier == "quick" else 3, STEPS),
         "exhaustive": not st.capped, "samples": st.samples[:4],
     }
-    rep.assumptions = ["non-decreasing clock; the owner calls update at most once per frame; frames of 1/64, 1/60 and 1/50 s",
+    rep.assumptions = ["non-decreasing clock; frames of 1/64, 1/60 and 1/50 s, plus a 1 kHz busy loop (step 'fastloop') in which only the protocol's send-rate cap limits the datagram rate",
                        "reduced ring (63) is a configuration of the same code and is used for this monitor only (argument in DESIGN.md / module docstring)"]
     return rep
 
